@@ -13,12 +13,16 @@ Strings are their UTF-8 bytes.  The Rust argument type is `str`, so `utf8Valid v
 real inputs; theorems that need it carry it as a hypothesis, the others hold for every byte string.
 No length bound anywhere.
 
-Not in this file: the filter-level corollary `C09_filter_inert` of DESIGN.md (any one-hole value
-context of the RFC 4515 grammar) needs the C08 filter grammar/parser model; until that slice is merged
-the value level is covered by `C09_escape_renders` / `C09_escape_read` / `C09_escape_inert`, and the
-real filter parser is exercised on `(a=<ldap_escape v>)` by lane `escape` (R lines `filter.value`).
+Filter level (section "ldap_escape inside a filter string"): the parser is the MODEL PARSER of the
+C08 slice, `Filter.parse` (Model/Filter.lean = `ldap3::parse_filter` of src/filter.rs, tied to the real
+code by lane `filter`); the trees are `Spec.Filter` (RFC 4515 §3) and "yields the node f" is stated as
+in C08: the tag built has the RFC 4511 BER structure `Spec.Filter.toTlv f` (injective, and read back by
+the strict decoder `ofTlv`: `C08_toTlv_injective`, `C08_ofTlv_toTlv`).  These theorems hold for EVERY
+byte string `v`, valid UTF-8 or not (the library's value language admits any octet ≥ 0x80).  The real
+parser is additionally exercised on `(a=<ldap_escape v>)` by lane `escape` (R lines `filter.value`).
 -/
 import Ldap3V.Lemmas.Escape
+import Ldap3V.Lemmas.EscapeFilter
 import Ldap3V.Lemmas.EscapeUtf8
 import Ldap3V.Lemmas.EscapeDn
 import Ldap3V.Lemmas.EscapeDnStruct
@@ -91,6 +95,183 @@ theorem C09_unescape_noop (v : Bytes) (h : ∀ b ∈ v, b ≠ 0x5C) : ldapUnesca
   subst this
   rfl
 
+/-! ### ldap_escape inside a filter string
+
+Hypothesis on the attribute description `a`: `attrDescOk a`, i.e. the model's own
+`attributedescription` sub-parser consumes all of `a`; by `C09_attr_hypothesis` this is the grammar's
+`attributedescription` of RFC 4512 §2.5 in the library's dialect (a bare number is accepted as an oid).
+Without it the filter is rejected whatever the value is: `(=x)`, `(a b=x)`, `(1.=x)` (examples below).
+No hypothesis on `v`: in particular `v = ""` gives `(a=)`, which the parser reads as an equality
+match with the empty value (filter.rs `eq`: `mid_final.is_empty()` ⇒ `EQ_MATCH`), not as presence. -/
+
+/-- the decidable hypothesis is the grammar's attribute description (library dialect) -/
+theorem C09_attr_hypothesis (a : Bytes) : attrDescOk a = true ↔ Spec.Filter.IsAttrDesc .lib a :=
+  attrDescOk_iff a
+
+/-- `(a=<ldap_escape v>)` is accepted and is exactly the equality match of attribute `a` with
+assertion value `v` — `.cons 2 3 [.prim 0 4 a, .prim 0 4 v]` on the wire. -/
+theorem C09_filter_inert (a v : Bytes) (ha : attrDescOk a = true) :
+    (Filter.parse ([0x28] ++ a ++ [0x3D] ++ ldapEscape v ++ [0x29])).map Tag.toTlv =
+      some (Spec.Filter.toTlv (.eq a v)) :=
+  parse_of_G (valItem_G (.eq a) ((attrDescOk_iff a).mp ha) (rvalF_ldapEscape v))
+
+/-- … the tag the model parser returns, constructor for constructor (what `eq` of filter.rs builds) -/
+theorem C09_filter_inert_tag (a v : Bytes) (ha : attrDescOk a = true) :
+    Filter.parse ([0x28] ++ a ++ [0x3D] ++ ldapEscape v ++ [0x29]) =
+      some (.sequence 2 3 [.octetString 0 4 a, .octetString 0 4 v]) :=
+  parse_eq_exact ((attrDescOk_iff a).mp ha) (rvalF_ldapEscape v)
+
+/-- … and the strict RFC 4511 decoder reads that tag as `equalityMatch (a, v)`. -/
+theorem C09_filter_inert_decoded (a v : Bytes) (ha : attrDescOk a = true) :
+    (Filter.parse ([0x28] ++ a ++ [0x3D] ++ ldapEscape v ++ [0x29])).bind (fun t => Spec.Filter.ofTlv t.toTlv) =
+      some (.eq a v) :=
+  decoded_of_map (C09_filter_inert a v ha)
+
+/-- the same for `>=`, `<=`, `~=` -/
+theorem C09_filter_inert_ord (a v : Bytes) (ha : attrDescOk a = true) :
+    (Filter.parse ([0x28] ++ a ++ [0x3E, 0x3D] ++ ldapEscape v ++ [0x29])).map Tag.toTlv =
+      some (Spec.Filter.toTlv (.ge a v)) ∧
+    (Filter.parse ([0x28] ++ a ++ [0x3C, 0x3D] ++ ldapEscape v ++ [0x29])).map Tag.toTlv =
+      some (Spec.Filter.toTlv (.le a v)) ∧
+    (Filter.parse ([0x28] ++ a ++ [0x7E, 0x3D] ++ ldapEscape v ++ [0x29])).map Tag.toTlv =
+      some (Spec.Filter.toTlv (.approx a v)) := by
+  have h := (attrDescOk_iff a).mp ha
+  exact ⟨parse_of_G (valItem_G (.ge a) h (rvalF_ldapEscape v)), parse_of_G (valItem_G (.le a) h (rvalF_ldapEscape v)),
+    parse_of_G (valItem_G (.approx a) h (rvalF_ldapEscape v))⟩
+
+/-- … with the tags the model parser returns (`non_eq` of filter.rs: ids 5, 6, 8) -/
+theorem C09_filter_inert_ord_tag (a v : Bytes) (ha : attrDescOk a = true) :
+    Filter.parse ([0x28] ++ a ++ [0x3E, 0x3D] ++ ldapEscape v ++ [0x29]) =
+      some (.sequence 2 5 [.octetString 0 4 a, .octetString 0 4 v]) ∧
+    Filter.parse ([0x28] ++ a ++ [0x3C, 0x3D] ++ ldapEscape v ++ [0x29]) =
+      some (.sequence 2 6 [.octetString 0 4 a, .octetString 0 4 v]) ∧
+    Filter.parse ([0x28] ++ a ++ [0x7E, 0x3D] ++ ldapEscape v ++ [0x29]) =
+      some (.sequence 2 8 [.octetString 0 4 a, .octetString 0 4 v]) := by
+  have h := (attrDescOk_iff a).mp ha
+  exact ⟨parse_ge_exact h (rvalF_ldapEscape v), parse_le_exact h (rvalF_ldapEscape v),
+    parse_approx_exact h (rvalF_ldapEscape v)⟩
+
+/-- Substring filters, any number of pieces: `(a=[esc ini]*{esc any_k *}[esc fin])`
+(`substrText`) is the substring filter with exactly these pieces, in this order.  The pieces must be
+non-empty (RFC 4511: `SIZE (1..MAX)`; an empty escaped piece makes `(a=i**f)`, which is rejected, or
+changes `initial`/`final` into "absent"), and there must be at least one (otherwise the text is
+`(a=*)`, the presence filter: `C09_filter_present`). -/
+theorem C09_filter_substr (a : Bytes) (ini fin : Option Bytes) (any : List Bytes) (ha : attrDescOk a = true)
+    (hi : ini ≠ some []) (hy : ∀ m ∈ any, m ≠ []) (hf : fin ≠ some [])
+    (hne : ini.isSome = true ∨ any ≠ [] ∨ fin.isSome = true) :
+    (Filter.parse (substrText a ini any fin)).map Tag.toTlv = some (Spec.Filter.toTlv (.substr a ini any fin)) :=
+  parse_of_G (substr_G ((attrDescOk_iff a).mp ha) ini fin any hi hy hf hne)
+
+/-- the instance `(a=<esc i>*<esc m>*<esc f>)`: initial `i`, any `[m]`, final `f` -/
+theorem C09_filter_substr3 (a i m f : Bytes) (ha : attrDescOk a = true) (hi : i ≠ []) (hm : m ≠ []) (hf : f ≠ []) :
+    (Filter.parse ([0x28] ++ a ++ [0x3D] ++ ldapEscape i ++ [0x2A] ++ ldapEscape m ++ [0x2A] ++ ldapEscape f ++
+      [0x29])).map Tag.toTlv = some (Spec.Filter.toTlv (.substr a (some i) [m] (some f))) := by
+  have := C09_filter_substr a (some i) (some f) [m] ha (by simpa using hi) (by simpa using hm) (by simpa using hf)
+    (Or.inl rfl)
+  simpa [substrText, ldapEscapeOpt, ldapEscapeAny] using this
+
+/-- what the non-emptiness hypotheses exclude, exactly: an empty `any` piece is rejected (two adjacent
+asterisks), for every attribute and all other pieces; an empty `initial` / `final` gives the same text
+as an absent one (so it is read as absent). -/
+theorem C09_filter_substr_empty_piece (a : Bytes) (ini fin : Option Bytes) (any pre post : List Bytes) :
+    Filter.parse (substrText a ini (pre ++ [] :: post) fin) = none ∧
+    substrText a (some []) any fin = substrText a none any fin ∧
+    substrText a ini any (some []) = substrText a ini any none :=
+  ⟨substr_empty_any_rejected a ini fin pre post, by simp [substrText, ldapEscapeOpt, ldapEscape_nil],
+    by simp [substrText, ldapEscapeOpt, ldapEscape_nil]⟩
+
+/-- with no piece at all the text is `(a=*)`: presence -/
+theorem C09_filter_present (a : Bytes) (ha : attrDescOk a = true) :
+    substrText a none [] none = [0x28] ++ a ++ [0x3D, 0x2A, 0x29] ∧
+    (Filter.parse (substrText a none [] none)).map Tag.toTlv = some (Spec.Filter.toTlv (.present a)) := by
+  have e : substrText a none [] none = [0x28] ++ a ++ [0x3D, 0x2A, 0x29] := by
+    simp [substrText, ldapEscapeOpt, ldapEscapeAny]
+  refine ⟨e, ?_⟩
+  have := Filter.G_of_item (Spec.Filter.GItem.present ((attrDescOk_iff a).mp ha))
+  rw [e]
+  exact parse_of_G (by simpa using this)
+
+/-- Extensible match `(a:=<ldap_escape v>)`: type `a`, no matching rule, value `v`, dnAttributes FALSE. -/
+theorem C09_filter_ext (a v : Bytes) (ha : attrDescOk a = true) :
+    (Filter.parse ([0x28] ++ a ++ [0x3A, 0x3D] ++ ldapEscape v ++ [0x29])).map Tag.toTlv =
+      some (Spec.Filter.toTlv (.ext none (some a) v false)) :=
+  parse_of_G (valItem_G (.ext a) ((attrDescOk_iff a).mp ha) (rvalF_ldapEscape v))
+
+/-- The general extensible match with a type: `(a[:dn][:rule]:=<ldap_escape v>)` (`extText`; `kw` is
+the spelling of the keyword, `dn` in any case).  A rule must be an oid (`oidOk`: the model's
+`attributetype` consumes it), and without `:dn` it must not itself be spelled like the keyword
+(`(a:dn:=v)` is read as dnAttributes TRUE, not as the rule called `dn`). -/
+theorem C09_filter_ext_rule (a kw v : Bytes) (rule : Option Bytes) (dn : Bool) (ha : attrDescOk a = true)
+    (hk : dn = true → Spec.Filter.isDnKw .lib kw = true) (ho : ∀ r, rule = some r → oidOk r = true)
+    (hn : dn = false → ∀ r, rule = some r → Spec.Filter.isDnKw .lib r = false) :
+    (Filter.parse (extText a dn kw rule (ldapEscape v))).map Tag.toTlv =
+      some (Spec.Filter.toTlv (.ext rule (some a) v dn)) :=
+  parse_of_G (ext_G ((attrDescOk_iff a).mp ha) hk (fun r h => (oidOk_iff r).mp (ho r h)) hn (rvalF_ldapEscape v))
+
+/-- Structure: put `(a op <ldap_escape v>)` (`op` one of `=` `>=` `<=` `~=` `:=`) anywhere inside a
+boolean structure — any nesting of `(&…)` `(|…)` `(!…)`, any sibling filters of the language before
+and after it at each level (`Ctx`, Spec/FilterCtx.lean).  The result is that structure with exactly
+the node (`a`, `v`) in the hole: the same siblings, the same nesting, nothing added, closed or merged,
+whatever `v` is. -/
+theorem C09_filter_nested (c : Spec.Filter.Ctx) (hc : c.ok .lib) (it : Spec.Filter.ValItem)
+    (ha : attrDescOk it.attr = true) (v : Bytes) :
+    (Filter.parse (c.fill (it.text (ldapEscape v)))).map Tag.toTlv = some (Spec.Filter.toTlv (c.tree (it.tree v))) :=
+  parse_of_G (ctx_G c hc (valItem_G it ((attrDescOk_iff _).mp ha) (rvalF_ldapEscape v)))
+
+/-- the same for a substring item in the hole -/
+theorem C09_filter_substr_nested (c : Spec.Filter.Ctx) (hc : c.ok .lib) (a : Bytes) (ini fin : Option Bytes)
+    (any : List Bytes) (ha : attrDescOk a = true)
+    (hi : ini ≠ some []) (hy : ∀ m ∈ any, m ≠ []) (hf : fin ≠ some [])
+    (hne : ini.isSome = true ∨ any ≠ [] ∨ fin.isSome = true) :
+    (Filter.parse (c.fill (substrText a ini any fin))).map Tag.toTlv =
+      some (Spec.Filter.toTlv (c.tree (.substr a ini any fin))) :=
+  parse_of_G (ctx_G c hc (substr_G ((attrDescOk_iff a).mp ha) ini fin any hi hy hf hne))
+
+/-- `(objectClass=person)` -/
+def C09_objectClassPerson : Bytes :=
+  [0x28, 0x6F, 0x62, 0x6A, 0x65, 0x63, 0x74, 0x43, 0x6C, 0x61, 0x73, 0x73, 0x3D, 0x70, 0x65, 0x72, 0x73, 0x6F, 0x6E, 0x29]
+
+/-- `(objectClass=person)` with its tree -/
+def C09_personSib : Spec.Filter × Bytes :=
+  (.eq [0x6F, 0x62, 0x6A, 0x65, 0x63, 0x74, 0x43, 0x6C, 0x61, 0x73, 0x73] [0x70, 0x65, 0x72, 0x73, 0x6F, 0x6E],
+    C09_objectClassPerson)
+
+theorem C09_person_ok : Spec.Filter.Sibs.ok .lib [C09_personSib] := by
+  intro p hp
+  simp only [List.mem_singleton] at hp
+  subst hp
+  exact Filter.G_of_item (.eq ((attrDescOk_iff _).mp (by decide))
+    (.lit (by decide) (.lit (by decide) (.lit (by decide) (.lit (by decide) (.lit (by decide) (.lit (by decide) .nil)))))))
+
+/-- the instance named in the property discussion: `(&(objectClass=person)(a=<ldap_escape v>))` is
+`And [objectClass=person, a=v]` -/
+theorem C09_filter_and_person (a v : Bytes) (ha : attrDescOk a = true) :
+    (Filter.parse ([0x28, 0x26] ++ C09_objectClassPerson ++ ([0x28] ++ a ++ [0x3D] ++ ldapEscape v ++ [0x29]) ++
+      [0x29])).map Tag.toTlv =
+    some (Spec.Filter.toTlv (.and [.eq [0x6F, 0x62, 0x6A, 0x65, 0x63, 0x74, 0x43, 0x6C, 0x61, 0x73, 0x73]
+      [0x70, 0x65, 0x72, 0x73, 0x6F, 0x6E], .eq a v])) := by
+  have := C09_filter_nested (.and [C09_personSib] .hole []) ⟨C09_person_ok, trivial, by simp [Spec.Filter.Sibs.ok]⟩
+    (.eq a) ha v
+  simpa [Spec.Filter.Ctx.fill, Spec.Filter.Ctx.tree, Spec.Filter.Sibs.text, Spec.Filter.Sibs.trees,
+    Spec.Filter.ValItem.text, Spec.Filter.ValItem.tree, Spec.Filter.ValItem.attr, Spec.Filter.ValItem.op,
+    C09_personSib] using this
+
+/-- The statement of DESIGN.md: any way `C` of building a filter string around a value text, such
+that every RFC 4515 rendering of `v` in it gives a string denoting `f`, gives a string the parser
+compiles to `f` when the text is `ldap_escape(v)`. -/
+theorem C09_filter_inert_ctx (f : Spec.Filter) (C : Bytes → Bytes) (v : Bytes)
+    (h : ∀ r, Spec.Filter.RVal v r → Spec.Filter.GLib f (C r)) :
+    (Filter.parse (C (ldapEscape v))).map Tag.toTlv = some (Spec.Filter.toTlv f) :=
+  parse_of_GLib (h _ (rvalF_ldapEscape v))
+
+/-- For a Rust `str` `v` and an attribute description of RFC 4512 as written (a numeric oid has at
+least two arcs), the text `(a op <ldap_escape v>)` is itself valid UTF-8 (a `&str` that can be handed to
+`parse_filter`) and a filter string of RFC 4515 as written (`GRfc`, the language of `C08_complete`)
+denoting the node (`a`, `v`): escaping never leaves the RFC's language. -/
+theorem C09_filter_text_rfc (it : Spec.Filter.ValItem) (v : Bytes) (ha : Spec.Filter.IsAttrDesc .rfc it.attr)
+    (hv : utf8Valid v = true) : Spec.Filter.GRfc (it.tree v) (it.text (ldapEscape v)) :=
+  ⟨Or.inl (valItem_G it ha (rvalF_ldapEscape v)), valItem_text_utf8 it ha v hv⟩
+
 /-! ### dn_escape -/
 
 /-- The RFC 4514 reader, placed at the start of `dn_escape(v)` followed by the end of the DN or a
@@ -128,6 +309,49 @@ example : ldapEscape [0x61, 0x5C, 0x2A, 0x28, 0x62, 0x29, 0x00] =
 example : utf8Valid [0x61, 0x5C, 0x2A, 0x28, 0x62, 0x29, 0x00] = true := by decide
 example : ldapUnescape (ldapEscape [0x61, 0x5C, 0x2A, 0x28, 0x62, 0x29, 0x00]) = .ok [0x61, 0x5C, 0x2A, 0x28, 0x62, 0x29, 0x00] := by decide
 example : readFilterValue [0x5C, 0x32, 0x41, 0x5C, 0x32, 0x61, 0x62] = some [0x2A, 0x2A, 0x62] := by decide
+-- hypotheses of the filter-level theorems: `cn`, `cn;lang-de`, `2.5.4.3` are attribute descriptions;
+-- `` (empty), `a b`, `1.` are not, and `(=x)`, `(a b=x)`, `(1.=x)` are rejected
+example : attrDescOk [0x63, 0x6E] = true ∧ attrDescOk [0x63, 0x6E, 0x3B, 0x6C, 0x61, 0x6E, 0x67, 0x2D, 0x64, 0x65] = true ∧
+    attrDescOk [0x32, 0x2E, 0x35, 0x2E, 0x34, 0x2E, 0x33] = true := by decide
+example : attrDescOk [] = false ∧ attrDescOk [0x61, 0x20, 0x62] = false ∧ attrDescOk [0x31, 0x2E] = false := by decide
+example : (Filter.parse [0x28, 0x3D, 0x78, 0x29]).isNone = true ∧
+    (Filter.parse [0x28, 0x61, 0x20, 0x62, 0x3D, 0x78, 0x29]).isNone = true ∧
+    (Filter.parse [0x28, 0x31, 0x2E, 0x3D, 0x78, 0x29]).isNone = true := by decide
+example : Spec.Filter.IsAttrDesc .rfc (Spec.Filter.ValItem.approx [0x63, 0x6E]).attr :=
+  ⟨[0x63, 0x6E], [], Or.inl (by decide), by simp, rfl⟩
+-- `(cn=<ldap_escape "a\*(b)NUL">)`: the BER of equalityMatch (cn, a\*(b)NUL), all seven octets in the value
+example : (Filter.parse ([0x28, 0x63, 0x6E, 0x3D] ++ ldapEscape [0x61, 0x5C, 0x2A, 0x28, 0x62, 0x29, 0x00] ++ [0x29])).map
+      (fun t => encode t.toTlv) =
+    some [0xA3, 0x0D, 0x04, 0x02, 0x63, 0x6E, 0x04, 0x07, 0x61, 0x5C, 0x2A, 0x28, 0x62, 0x29, 0x00] := by decide
+-- the empty value: `(cn=)` is equalityMatch (cn, ""), not presence
+example : (Filter.parse ([0x28, 0x63, 0x6E, 0x3D] ++ ldapEscape [] ++ [0x29])).map (fun t => encode t.toTlv) =
+    some [0xA3, 0x06, 0x04, 0x02, 0x63, 0x6E, 0x04, 0x00] := by decide
+-- what escaping prevents: the value `x)(b=y` pasted raw into `(&(objectClass=person)(a=…))` adds a third
+-- conjunct `(b=y)`; escaped, it is the value of the second of two
+example : (Filter.parse ([0x28, 0x26] ++ C09_objectClassPerson ++ ([0x28, 0x61, 0x3D] ++ [0x78, 0x29, 0x28, 0x62, 0x3D, 0x79] ++ [0x29]) ++
+      [0x29])).map (fun t => encode t.toTlv) =
+    some [0xA0, 0x27, 0xA3, 0x15, 0x04, 0x0B, 0x6F, 0x62, 0x6A, 0x65, 0x63, 0x74, 0x43, 0x6C, 0x61, 0x73, 0x73, 0x04, 0x06,
+      0x70, 0x65, 0x72, 0x73, 0x6F, 0x6E, 0xA3, 0x06, 0x04, 0x01, 0x61, 0x04, 0x01, 0x78, 0xA3, 0x06, 0x04, 0x01, 0x62,
+      0x04, 0x01, 0x79] := by decide
+example : (Filter.parse ([0x28, 0x26] ++ C09_objectClassPerson ++
+      ([0x28, 0x61, 0x3D] ++ ldapEscape [0x78, 0x29, 0x28, 0x62, 0x3D, 0x79] ++ [0x29]) ++ [0x29])).map (fun t => encode t.toTlv) =
+    some [0xA0, 0x24, 0xA3, 0x15, 0x04, 0x0B, 0x6F, 0x62, 0x6A, 0x65, 0x63, 0x74, 0x43, 0x6C, 0x61, 0x73, 0x73, 0x04, 0x06,
+      0x70, 0x65, 0x72, 0x73, 0x6F, 0x6E, 0xA3, 0x0B, 0x04, 0x01, 0x61, 0x04, 0x06, 0x78, 0x29, 0x28, 0x62, 0x3D, 0x79] := by
+  decide
+-- substring pieces `*`, `)`, `\`: `(a=\2a*\29*\5c)` is initial `*`, any `)`, final `\`
+example : (Filter.parse ([0x28, 0x61, 0x3D] ++ ldapEscape [0x2A] ++ [0x2A] ++ ldapEscape [0x29] ++ [0x2A] ++ ldapEscape [0x5C] ++
+      [0x29])).map (fun t => encode t.toTlv) =
+    some [0xA4, 0x0E, 0x04, 0x01, 0x61, 0x30, 0x09, 0x80, 0x01, 0x2A, 0x81, 0x01, 0x29, 0x82, 0x01, 0x5C] := by decide
+-- an empty middle piece is rejected: `(a=i**f)`
+example : (Filter.parse (substrText [0x61] (some [0x69]) [[]] (some [0x66]))).isNone = true := by decide
+-- hypothesis `hn` of `C09_filter_ext_rule`: `(a:dn:=v)` has dnAttributes TRUE and no rule
+example : (Filter.parse [0x28, 0x61, 0x3A, 0x64, 0x6E, 0x3A, 0x3D, 0x76, 0x29]).map (fun t => encode t.toTlv) =
+    some [0xA9, 0x09, 0x82, 0x01, 0x61, 0x83, 0x01, 0x76, 0x84, 0x01, 0xFF] := by decide
+-- … and its other hypotheses are satisfiable: `(cn:DN:2.4.6:=…)`
+example : Spec.Filter.isDnKw .lib [0x44, 0x4E] = true ∧ oidOk [0x32, 0x2E, 0x34, 0x2E, 0x36] = true := by decide
+-- a context with siblings on both sides and two levels: `(|(!(&(objectClass=person)□(objectClass=person))))`
+example : (Spec.Filter.Ctx.or [] (.not (.and [C09_personSib] .hole [C09_personSib])) []).ok .lib :=
+  ⟨by simp [Spec.Filter.Sibs.ok], ⟨C09_person_ok, trivial, C09_person_ok⟩, by simp [Spec.Filter.Sibs.ok]⟩
 -- `é𝄞*` : multi-byte characters pass through, the result is still UTF-8
 example : ldapEscapeO [0xC3, 0xA9, 0xF0, 0x9D, 0x84, 0x9E, 0x2A] = .ok [0xC3, 0xA9, 0xF0, 0x9D, 0x84, 0x9E, 0x5C, 0x32, 0x61] := by decide
 -- on bytes that are not UTF-8 (impossible for a Rust `str`) the modelled `expect` would fire
